@@ -84,4 +84,8 @@ PROPS = {
         {"id": "C10", "cpu": 2, "quick_n": 240, "thorough_n": 16000, "quick_s": 60, "thorough_s": 900, "timeout": 300,
          "rule": "same multi-node runs with the ref-transition monitor at the ref-store seam and on the receive-pack requests the client sends; non-trivial = >=1 rejected, forced or diverged update; distinct by plan hash"},
     ]},
+    "C12": {"level": "exploration", "profiles": [
+        {"id": "C12", "quick_n": 1200, "thorough_n": 150000, "quick_s": 60, "thorough_s": 900, "timeout": 120,
+         "rule": "repository (DAG <=16, tables sharing blocks, refs of every kind incl. open-transaction and remote-tracking refs, shallow commits, deleted refs) pruned twice (library, or CLI prune then gc) vs a reachability model over the raw store; non-trivial = (>=1 commit removed and >=1 kept) or shallow commit present; distinct by plan hash"},
+    ]},
 }
